@@ -15,14 +15,14 @@ QUIRKS = {'threaded': dict(sentinel=True, read_timeout=False, concurrent_disc=Fa
 
 
 class Cfg:
-    def __init__(self, interval=4096, timeout=1680, async_handlers=False, monitor=True, allow_upgrades=True, polling=True, websocket=True):
-        self.interval, self.timeout = interval, timeout
+    def __init__(self, interval=4096, timeout=1680, async_handlers=False, monitor=True, allow_upgrades=True, polling=True, websocket=True, grace=0):
+        self.interval, self.timeout, self.grace = interval, timeout, grace
         self.async_handlers, self.monitor, self.allow_upgrades = async_handlers, monitor, allow_upgrades
         self.polling, self.websocket = polling, websocket
 
     def kwargs(self):
         tr = [t for t, on in (('polling', self.polling), ('websocket', self.websocket)) if on]
-        return dict(ping_interval=self.interval / TICK, ping_timeout=self.timeout / TICK, async_handlers=self.async_handlers,
+        return dict(ping_interval=(self.interval / TICK, self.grace / TICK) if self.grace else self.interval / TICK, ping_timeout=self.timeout / TICK, async_handlers=self.async_handlers,
                     monitor_clients=self.monitor, allow_upgrades=self.allow_upgrades, transports=tr, max_http_buffer_size=MAXBUF)
 
     def term(self, kind):
@@ -33,7 +33,7 @@ class Cfg:
                    qbool(self.polling), qbool(self.websocket), qbool(q['sentinel']), qbool(q['read_timeout']), qbool(q['concurrent_disc']), qbool(q['batch']), qbool(q['twins'])))
 
     def key(self):
-        return (self.interval, self.timeout, self.async_handlers, self.monitor, self.allow_upgrades, self.polling, self.websocket)
+        return (self.interval, self.timeout, self.async_handlers, self.monitor, self.allow_upgrades, self.polling, self.websocket, self.grace)
 
 
 # ---- client packets -----------------------------------------------------------------------------------
@@ -179,6 +179,7 @@ class Runner:
         self.req_info = {}        # model rid -> (op kind, session ref or None)
         self.conn_sess = {}       # model cid -> session index
         self.pre, self.post = [], []     # flag snapshots around every stimulus
+        self.times = []                  # virtual time (ticks since start) after every stimulus
         self.impl_rid = {}        # model rid -> driver rid
 
     # --- bookkeeping
@@ -402,6 +403,7 @@ class Runner:
         self.log.append(op)
         self.outs.append(self._collect())
         self.post.append(self.flags())
+        self.times.append(round((self.d.now - rt.T0) * TICK))
 
     def close(self):
         self.d.close()
